@@ -8,6 +8,7 @@ import (
 	"regexp"
 	"sort"
 	"strings"
+	"sync"
 
 	"golang.org/x/tools/go/packages"
 	"golang.org/x/tools/go/ssa"
@@ -40,6 +41,19 @@ type World struct {
 	repo                 string
 	verifDir             string
 	loadSecs             float64
+	pureMu               sync.Mutex
+	pureCache            map[*ssa.BasicBlock]bool
+}
+
+func (w *World) isPure(b *ssa.BasicBlock) bool {
+	w.pureMu.Lock()
+	defer w.pureMu.Unlock()
+	if v, ok := w.pureCache[b]; ok {
+		return v
+	}
+	v := pureBlock(b)
+	w.pureCache[b] = v
+	return v
 }
 
 var harnessRe = regexp.MustCompile(`^ZZ_(C[0-9]+)_`)
@@ -147,7 +161,7 @@ func loadWorld(repo, verifDir, genDir string) (*World, error) {
 	prog, _ := ssautil.AllPackages(pkgs, ssa.InstantiateGenerics)
 	prog.Build()
 	w := &World{prog: prog, fset: prog.Fset, overlay: ov, overlayReal: real, repo: repo, verifDir: verifDir,
-		concretizeIntToFloat: map[string]bool{"getNewLength": true},
+		concretizeIntToFloat: map[string]bool{"getNewLength": true}, pureCache: map[*ssa.BasicBlock]bool{},
 		initAllowed:          map[string]bool{"io": true}}
 	for _, p := range prog.AllPackages() {
 		path := p.Pkg.Path()
